@@ -30,6 +30,7 @@ one SELECT or nested subqueries":
 import DafRel.Lemmas.ConformSound
 import DafRel.Props.C17
 import DafRel.Lemmas.SqlHistory
+import DafRel.Lemmas.SqlRunSound
 
 namespace DafRel.Props.C02
 
@@ -86,6 +87,54 @@ theorem sql_history_tree_sem (σ : Leaves) (st : Store) (eng : Engine) (hk : eng
   let B := sql_build_invariant σ st eng hk b r hok h
   ⟨B.sem_eq, B.cols, B.good.wf, B.engine⟩
 
+/-! ### The emitted SELECT -/
+
+/-- **The SELECT the engine emits returns the reference rows.**  For every Good Select tree - whatever
+nesting of subqueries, joins and UNIONs - whose leaves and processed markers hold faithful payloads
+(`Rel.SqlReady`): if `_select_to_executable` succeeds and no FROM clause names the same item twice, the
+query evaluates, under the list semantics of SQL, to exactly the rows - values, multiplicity, order - of the
+reference semantics of the tree.  Every recursion budget. -/
+theorem emitted_select_returns_reference_rows (σ : Leaves) (s : SqlState) (fuel : Nat) (S : Rel) (ctr : Nat)
+    (q : Query) (c : Nat) (hg : Good σ S) (hs : S.isSelect = true) (hrd : S.SqlReady s s.tables σ)
+    (h : compileSelect s fuel S ctr = .ok (q, c)) (hdup : q.hasDup = false) :
+    (Query.eval s.tables q).rows = sem σ S :=
+  (compile_sound σ s fuel).select S ctr q c hg hs hrd h hdup
+
+/-- ... and so does the payload `to_payload` builds for any Good tree (used as a subquery / join operand). -/
+theorem emitted_payload_stands_for_reference_rows (σ : Leaves) (s : SqlState) (fuel : Nat) (t : Rel) (ctr : Nat)
+    (p : SqlPayload) (c : Nat) (hg : Good σ t) (hrd : t.SqlReady s s.tables σ)
+    (h : toPayload s fuel t ctr = .ok (p, c)) (hdup : From.hasDup p.frm = false) (hnd : (From.names p.frm).Nodup) :
+    sem σ t = (payEnvs s.tables p).map (rowOf p.avail) :=
+  ((compile_sound σ s fuel).payload t ctr p c hg hrd h hdup hnd).rows_eq
+
+/-- **Conform, compile, evaluate** on a raw SQL tree returns the rows of its direct evaluation, whenever the
+conformed tree passes the decidable check `Rel.structReady` (the driver reports it on every `sqlexec`) and
+its leaves and markers hold faithful payloads. -/
+theorem to_executable_returns_reference_rows (σ : Leaves) (s : SqlState) (st : Store) (r : Rel) (out : EvalOut)
+    (b : Bool) (hwf : r.WF) (htr : r.Truthful σ) (hraw : r.RawSql)
+    (hready : ∀ c, conform st defaultFuel r = .ok c →
+      (c.get r).structReady s = true ∧ (c.get r).Faithful s s.tables σ)
+    (hrun : sqlRun s st r = .inr (out, b)) : out.rows = sem σ r :=
+  sqlRun_sound σ s st r out b hwf htr hraw hready hrun
+
+/-- ... and for every construction history inside one SQL engine: the database returns the rows of the direct
+evaluation of the operation sequence. -/
+theorem sql_history_executes_to_direct_rows (σ : Leaves) (s : SqlState) (st : Store) (eng : Engine)
+    (hk : eng.kind = .sql) (bld : SqlBuild) (r : Rel) (out : EvalOut) (b : Bool) (hok : bld.ok σ)
+    (h : bld.tree st eng = .ok r)
+    (hready : ∀ c, conform st defaultFuel r = .ok c →
+      (c.get r).structReady s = true ∧ (c.get r).Faithful s s.tables σ)
+    (hrun : sqlRun s st r = .inr (out, b)) : out.rows = bld.direct σ := by
+  have B := sql_build_invariant σ st eng hk bld r hok h
+  rw [sqlRun_sound_good σ s st r out b B.good hready hrun]
+  exact B.sem_eq
+
+/-- A table holding the rows of a relation is a faithful payload for it. -/
+theorem table_payload_is_faithful (tables : List (List Row)) (name : String) (uid idx : Nat) (cols : Cols)
+    (rows : List Row) (htab : tables.getD idx [] = rows) (hr : RowsHaveCols rows cols) :
+    rows = (payEnvs tables (tablePayload name uid idx cols)).map (rowOf (tablePayload name uid idx cols).avail) :=
+  (tablePayload_paySem tables name uid idx cols rows htab hr).rows_eq
+
 /-! ### Non-vacuity -/
 
 private def ta : Tag := ⟨"a", true⟩
@@ -109,5 +158,50 @@ example : h0.ok σ0 := by
      subst hr
      intro t
      by_cases h1 : t = ta <;> by_cases h2 : t = tb <;> by_cases h3 : t = tc <;> simp_all [ta, tb, tc])
+
+/-- the database state: one table per leaf -/
+private def s0 : SqlState :=
+  { payloads := [(1, tablePayload "L" 1 0 [ta, tb]), (2, tablePayload "M" 2 1 [ta, tc])],
+    tables := [σ0 1, σ0 2] }
+private def r0 : Rel := ((h0.tree [] e0).toOption).getD default
+/-- the history compiles, runs, and returns the joined row -/
+example : (match sqlRun s0 [] r0 with
+    | .inr (out, _) => out.rows.map (fun r => [r ta, r tb, r tc])
+    | .inl _ => []) = [[some 1, some 5, some 7]] := by decide +kernel
+/-- the conformed tree passes the decidable check -/
+example : ((conform [] defaultFuel r0).toOption.map (fun c => (c.get r0).structReady s0)) = some true := by
+  decide +kernel
+
+private theorem rows1 : RowsHaveCols (σ0 1) [ta, tb] := by
+  intro r hr
+  simp [σ0] at hr
+  subst hr
+  intro t
+  by_cases h1 : t = ta <;> by_cases h2 : t = tb <;> simp_all [ta, tb]
+private theorem rows2 : RowsHaveCols (σ0 2) [ta, tc] := by
+  intro r hr
+  simp [σ0] at hr
+  subst hr
+  intro t
+  by_cases h1 : t = ta <;> by_cases h3 : t = tc <;> simp_all [ta, tc]
+/-- ... and holds faithful payloads: every hypothesis of `sql_history_executes_to_direct_rows` is met. -/
+example : ∀ c, conform [] defaultFuel r0 = .ok c →
+    (c.get r0).structReady s0 = true ∧ (c.get r0).Faithful s0 s0.tables σ0 := by
+  intro c hc
+  have h1 : ((conform [] defaultFuel r0).toOption.map (fun c =>
+      (c.get r0).structReady s0 && (c.get r0).leavesIn s0 [(1, [ta, tb]), (2, [ta, tc])])) = some true := by
+    decide +kernel
+  rw [hc] at h1
+  simp only [Except.toOption, Option.map_some, Option.some.injEq, Bool.and_eq_true] at h1
+  refine ⟨h1.1, faithful_of_leavesIn s0 s0.tables σ0 _ ?_ _ h1.2⟩
+  intro a ha p hp
+  simp only [List.mem_cons, List.not_mem_nil, or_false] at ha
+  rcases ha with rfl | rfl
+  · have : s0.payload 1 = some (tablePayload "L" 1 0 [ta, tb]) := rfl
+    rw [this] at hp; injection hp with hp; subst hp
+    exact tablePayload_paySem s0.tables "L" 1 0 [ta, tb] (σ0 1) rfl rows1
+  · have : s0.payload 2 = some (tablePayload "M" 2 1 [ta, tc]) := rfl
+    rw [this] at hp; injection hp with hp; subst hp
+    exact tablePayload_paySem s0.tables "M" 2 1 [ta, tc] (σ0 2) rfl rows2
 
 end DafRel.Props.C02
